@@ -45,11 +45,18 @@ Record(tags, kind) == LET sq == SetToSeq(tags) IN bad \o [i \in 1..Len(sq) |-> [
 \* rel: whether a deviation can matter for this event at all (it involves SLI, CCFB or REMB code, or a
 \* datagram or list that may contain them); if not, the strict clauses stand without re-evaluation
 DevKinds == {"SLI", "CCFB", "REMB", "LIST", "CP", "DGRAM"}
+\* a datagram involves a deviation only if one of its frames has the (PT, FMT) of SLI, CCFB or REMB
+DgramRel(b) ==
+  LET sp == SplitFrames(b, << >>) IN
+  \E i \in 1..Len(sp.frames) : LET f == sp.frames[i] IN
+     (HPT(f) = 205 /\ HC(f) \in {2, 11}) \/ (HPT(f) = 206 /\ HC(f) \in {2, 15})
 Verdict(G(_), X, rel) ==
   LET strict == G({}) \cup X IN
   IF strict = {} THEN {}
   ELSE IF ~rel THEN { [tag |-> t, dev |-> ""] : t \in strict }
-  ELSE Attribute(strict, G(Deviations) \cup X, LAMBDA d : G({d}) \cup X)
+  ELSE LET all == G(Deviations) \cup X IN
+       IF strict \subseteq all THEN { [tag |-> t, dev |-> ""] : t \in strict }     \* no deviation explains anything
+       ELSE Attribute(strict, all, LAMBDA d : G({d}) \cup X)
 
 e == Trace[l]
 Step(tags, ks, kind) ==
@@ -228,7 +235,7 @@ TrDatagram ==
      /\ pk' = [pk EXCEPT ![e.h] = IF res.ok THEN [k |-> "LIST", pkts |-> res.out] ELSE None]
      /\ memo' = [memo EXCEPT ![e.h] = SrcMemo(e.b, "LIST")] /\ UNCHANGED << buf, prov, provdec >>
      /\ fromdec' = IF res.ok THEN fromdec \cup {e.h} ELSE fromdec \ {e.h}
-     /\ Step(Verdict(G, InputMod(e), ("DGRAM" \in DevKinds)),
+     /\ Step(Verdict(G, InputMod(e), DgramRel(buf[e.b])),
              DecClass("dgram", DecDatagram({}, buf[e.b]).st, res.ok)
              \cup (IF prov[e.b].k # "NONE" THEN {"roundtrips"} ELSE {}), "DGRAM")
 TrUnitDec ==
